@@ -8,5 +8,6 @@ CONSTANTS N = 4
  Skip = {}
  GenMode = "sim"
  GenLen = 5
+ GenKinds = {"none", "raw", "resign", "sig", "list"}
 INVARIANTS Emit
 CHECK_DEADLOCK FALSE
